@@ -20,7 +20,8 @@ DECIDES = ('(ARITY) every helper name IndexNode emits receives explicit argument
            'sits at the position of the C parameter whose name it carries, the elements for parameters named like a directive read that directive, '
            'and the computed value is true whenever the directive is on (for wraparound: whenever the index is signed and not a non-negative constant), '
            'has_gil is false under nogil; '
-           '(FWD) inside the helper macros/functions a forwarded parameter lands on the callee parameter of the same name; '
+           '(FWD) inside the helper macros/functions a forwarded parameter lands on the callee parameter of the same name, and a callee parameter that the caller '
+           'also has under the same name does not receive a different caller parameter; '
            '(GUARD) in every flag-taking C fast path, for every preprocessor configuration and flag value: an unchecked element access is reached only '
            'after __Pyx_is_valid_index on the same variable when boundscheck is on; an accessor that does not wrap is reached only with an index that is '
            'known non-negative or had the length added on the negative path when wraparound is on; a bounds test that rejects an unadjusted negative index '
@@ -37,33 +38,47 @@ ASSUMPTIONS = ['the classification of element accessors into unchecked / checked
 EXEMPT = {}
 
 MUTATIONS = [
-    # (file, edit, expected rule) — each applied alone on a scratch copy; all reported
+    # (file, single edit applied on a scratch copy, rule that reported it) — all 29 variants were reported (exit 1) with a message naming the construct
     ('Cython/Compiler/ExprNodes.py', 'extra_index_params: swap `wraparound, boundscheck` in the returned tuple', 'C15-FLAGS'),
-    ('Cython/Compiler/ExprNodes.py', 'extra_index_params: `boundscheck = bool(...directives[\'wraparound\'])`', 'C15-FLAGS'),
-    ('Cython/Compiler/ExprNodes.py', 'extra_index_params: drop `not` in `not (isinstance(...) and constant_result >= 0)`', 'C15-FLAGS'),
+    ('Cython/Compiler/ExprNodes.py', "extra_index_params: `boundscheck = bool(...directives['wraparound'])`", 'C15-FLAGS'),
+    ('Cython/Compiler/ExprNodes.py', 'extra_index_params: drop `not` in `not (isinstance(...constant_result, int) and ...constant_result >= 0)`', 'C15-FLAGS'),
     ('Cython/Compiler/ExprNodes.py', 'extra_index_params: `has_gil = self.in_nogil_context`', 'C15-FLAGS'),
     ('Cython/Compiler/ExprNodes.py', 'extra_index_params: drop `has_gil` from format and tuple (6 flags)', 'C15-ARITY'),
-    ('Cython/Compiler/ExprNodes.py', 'generate_deletion_code: function = "__Pyx_DelItemInt" moved under the non-int branch', 'C15-ARITY'),
-    ('Cython/Compiler/ExprNodes.py', 'analyse_as_pyobject: `and not env.directives[\'boundscheck\']` -> `and env.directives[\'boundscheck\']`', 'C15-RAW'),
+    ('Cython/Compiler/ExprNodes.py', 'IndexNode.generate_deletion_code: `function = "__Pyx_DelItemInt"` on the non-integer (dict) branch', 'C15-ARITY'),
+    ('Cython/Compiler/ExprNodes.py', "analyse_as_pyobject: `and not env.directives['boundscheck']` -> `and env.directives['boundscheck']`", 'C15-RAW'),
     ('Cython/Compiler/ExprNodes.py', 'analyse_as_pyobject: `self.index.constant_result >= 0` -> `<= 0`', 'C15-RAW'),
+    ('Cython/Compiler/ExprNodes.py', "analyse_as_pyobject: `or not env.directives['wraparound']` -> `or env.directives['wraparound']`", 'C15-RAW'),
+    ('Cython/Compiler/ExprNodes.py', 'analyse_as_pyobject: swap `self.is_temp = 0` / `self.is_temp = 1`', 'C15-RAW'),
     ('Cython/Compiler/ExprNodes.py', 'SliceIndexNode.generate_result_code: swap {has_c_start:d} and {has_c_stop:d} in the GetSlice call', 'C15-SLICE'),
     ('Cython/Compiler/ExprNodes.py', 'get_slice_config: return (has_c_stop, has_c_start, ...)', 'C15-SLICE'),
     ('Cython/Compiler/ExprNodes.py', 'get_slice_config: `c_stop = self.start.result()`', 'C15-SLICE'),
-    ('Cython/Compiler/ExprNodes.py', 'generate_deletion_code (slice): drop py_slice argument of __Pyx_PyObject_DelSlice', 'C15-SLICE'),
-    ('Cython/Utility/ObjectHandling.c', '__Pyx_GetItemInt macro: forward `boundscheck, wraparound` to _Fast', 'C15-FWD'),
-    ('Cython/Utility/ObjectHandling.c', '__Pyx_GetItemInt_Fast: call List_Fast(o, i, boundscheck, wraparound, ...)', 'C15-FWD + C15-GUARD'),
+    ('Cython/Compiler/ExprNodes.py', 'SliceIndexNode.generate_deletion_code: drop the py_slice argument of __Pyx_PyObject_DelSlice', 'C15-SLICE'),
+    ('Cython/Compiler/ExprNodes.py', 'SliceIndexNode.generate_assignment_code: unpack get_slice_config() as (..., c_stop, c_start, ...)', 'C15-SLICE'),
+    ('Cython/Compiler/ExprNodes.py', '__Pyx_PyUnicode_Substring({base_result}, {stop_code}, {start_code})', 'C15-SLICE'),
+    ('Cython/Utility/ObjectHandling.c', '__Pyx_GetItemInt macro: forward `boundscheck, wraparound` to __Pyx_GetItemInt_Fast', 'C15-FWD'),
+    ('Cython/Utility/ObjectHandling.c', '__Pyx_GetItemInt_{{type}} macro: forward `boundscheck, wraparound` to the templated _Fast', 'C15-FWD'),
+    ('Cython/Utility/ObjectHandling.c', '__Pyx_GetItemInt_Fast: call __Pyx_GetItemInt_List_Fast(o, i, boundscheck, wraparound, ...)', 'C15-FWD + C15-GUARD'),
     ('Cython/Utility/ObjectHandling.c', '__Pyx_SetItemInt macro: parameter list `..., boundscheck, wraparound, ...`', 'C15-FLAGS'),
+    ('Cython/Utility/StringTools.c', '__Pyx_GetItemInt_Unicode_Fast prototype+definition: `int boundscheck, int wraparound`', 'C15-FWD'),
     ('Cython/Utility/ObjectHandling.c', '__Pyx_SetItemInt_Fast: `(!boundscheck) ||` -> `(boundscheck) ||`', 'C15-GUARD'),
-    ('Cython/Utility/ObjectHandling.c', '__Pyx_GetItemInt_Fast: remove the `wraparound && (i < 0) && ...wraparound(o, sm, &i)` statement', 'C15-GUARD'),
-    ('Cython/Utility/ObjectHandling.c', '__Pyx_GetItemInt_{{type}}_Fast: `wraparound & unlikely(i < 0)` -> `boundscheck & ...`', 'C15-GUARD'),
+    ('Cython/Utility/ObjectHandling.c', '__Pyx_SetItemInt_Fast: remove `if (wraparound && (i < 0) && ...__Pyx_GetItemInt_wraparound(o, sm, &i)...) return -1;`', 'C15-GUARD'),
+    ('Cython/Utility/ObjectHandling.c', '__Pyx_GetItemInt_{{type}}_Fast: `wraparound & unlikely(i < 0)` -> `boundscheck & unlikely(i < 0)`', 'C15-GUARD'),
     ('Cython/Utility/StringTools.c', '__Pyx_GetItemInt_Unicode_Fast: remove `if (wraparound & unlikely(i < 0)) i += length;`', 'C15-GUARD'),
     ('Cython/Utility/StringTools.c', '__Pyx_GetItemInt_Bytes_Fast: `if (boundscheck) {` -> `if (wraparound) {`', 'C15-GUARD'),
     ('Cython/Utility/StringTools.c', '__Pyx_SetItemInt_ByteArray_Fast: pass literal 0 for boundscheck to _Fast_Locked', 'C15-GUARD'),
-    # behaviour preserving, all silent
+    ('Cython/Utility/StringTools.c', '__Pyx_GetItemInt_Unicode_Fast: __Pyx_is_valid_index(length, i)', 'C15-GUARD'),
+    ('Cython/Utility/StringTools.c', '__Pyx_GetItemInt_ByteArray_Fast: `wraparound = wraparound && i<0` -> `i>0`', 'C15-GUARD'),
+    ('Cython/Utility/StringTools.c', '__Pyx_GetItemInt_Unicode_Fast: __Pyx_SetStringIndexingError(..., boundscheck)', 'C15-FWD'),
+    # behaviour preserving, all silent (exit 0)
     ('Cython/Compiler/ExprNodes.py', 'extra_index_params: rename locals wraparound->wrap, boundscheck->bc, inline has_gil', None),
-    ('Cython/Utility/ObjectHandling.c', 'rename wrapped_i -> idx; `(!boundscheck) || likely(X)` -> `!boundscheck || X`; reorder Set/Del sections', None),
-    ('Cython/Utility/StringTools.c', '__Pyx_GetItemInt_Unicode_Fast: `if (wraparound & unlikely(i < 0))` -> `if (wraparound && i < 0) {...}`', None),
-    ('Cython/Compiler/ExprNodes.py', 'get_slice_config: reorder the start/stop blocks; analyse_as_pyobject: swap two conjuncts of the is_temp guard', None),
+    ('Cython/Compiler/ExprNodes.py', 'extra_index_params: build the tuple in a local `flags` and return fmt % flags', None),
+    ('Cython/Utility/ObjectHandling.c', 'rename wrapped_i -> idx; `(!boundscheck) || likely(X)` -> `!boundscheck || X`', None),
+    ('Cython/Utility/ObjectHandling.c', 'move the DelItemInt sections in front of the SetItemInt sections', None),
+    ('Cython/Utility/ObjectHandling.c', '__Pyx_SetItemInt macro: parenthesise every forwarded argument', None),
+    ('Cython/Utility/ObjectHandling.c', '__Pyx_SetItemInt_Fast: ternary `n = ...` -> `n = i; if (wraparound && n < 0) n += PyList_GET_SIZE(o);`', None),
+    ('Cython/Utility/StringTools.c', '__Pyx_GetItemInt_Unicode_Fast: `if (wraparound & unlikely(i < 0)) i += length;` -> `if (wraparound && i < 0) { i += length; }`', None),
+    ('Cython/Utility/StringTools.c', '__Pyx_GetItemInt_Bytes_Fast: `if (boundscheck)` -> `if (boundscheck != 0)`, `unlikely(!X)` -> `!likely(X)`', None),
+    ('Cython/Compiler/ExprNodes.py', 'get_slice_config: stop block before start block; analyse_as_pyobject: swap two conjuncts of the is_temp guard', None),
 ]
 
 EX = 'Cython/Compiler/ExprNodes.py'
@@ -444,12 +459,16 @@ def rule_forward(ctx, M, F):
             for a in args:
                 b = P.bare_c_ident(a)
                 names.append(b if b in params and len(b) >= 4 else None)    # o / i / v are too generic to carry a role
-            carrying = [n for n in names if n and n in pn]
+            carrying = [n for i, n in enumerate(names) if n and (n in pn or (i < len(pn) and pn[i] in params))]
             if not carrying:
                 continue
             key = '%s->%s' % (cname, callee)
             r.inst(key, sample='%s calls %s(%s)' % (cname, callee, ', '.join(args)))
             for i, n in enumerate(names):
+                if n and i < len(pn) and pn[i] and pn[i] != n and pn[i] in params and len(pn[i]) >= 4 and n not in pn:
+                    r.violate('%s:%s-as-%s' % (key, n, pn[i]), file, line,
+                              '%s passes its parameter %r as argument %d of %s, which is that helper\'s parameter %r, although %s has a parameter %r of its own: '
+                              'the wrong flag is forwarded' % (cname, n, i, callee, pn[i], cname, pn[i]))
                 if n and n in pn and pn.index(n) != i and pn[i] != n and pn.count(n) == 1:
                     r.violate('%s:%s' % (key, n), file, line,
                               '%s forwards its parameter %r as argument %d of %s, which is parameter %r; the parameter named %r is at position %d: '
@@ -583,7 +602,7 @@ def _arg_name(a, phs):
 
 def rule_slice(ctx, M):
     r = Rule('C15-SLICE', 'calls emitted by SliceIndexNode: arity and name-aligned argument order against the C declaration; get_slice_config() is unpacked in the '
-             'order it returns; each start/stop/slice parameter is computed from the matching sub-expression', floor=20)
+             'order it returns; each start/stop/slice parameter is computed from the matching sub-expression', floor=24)
     cls = _cls(M.tree, 'SliceIndexNode')
     ms = _methods(cls)
     subexprs = None
@@ -734,13 +753,25 @@ def rule_raw(ctx, M):
     r.inst('IndexNode.generate_result_code:not-temp-return', sample='generate_result_code returns early for non-temps: %s' % early)
     if not early:
         raise AnalysisError('generate_result_code no longer starts with `if not self.is_temp: return`; the unchecked path is selected differently')
+    # the base-type flags under which calculate_result_code emits the unchecked templates
+    raw_types = set()
+    for n in ast.walk(calc):
+        if isinstance(n, ast.If) and any(isinstance(c, ast.Constant) and isinstance(c.value, str) and re.search(r'GET_ITEM\(|\[%s\]', c.value)
+                                         for b in n.body for c in ast.walk(b)):
+            raw_types |= {a.attr for a in ast.walk(n.test) if isinstance(a, ast.Attribute) and re.fullmatch(r'is_py\w+_type', a.attr)}
+    if not raw_types:
+        raise AnalysisError('calculate_result_code: cannot tell for which base types the unchecked templates are used')
     found = 0
     for mname, fn in M.m.items():
         for n in walk_no_nested(fn):
             if isinstance(n, ast.Assign) and any(is_self_attr(t) and t.attr == 'is_temp' for t in n.targets) \
                     and isinstance(n.value, ast.Constant) and not n.value.value:
                 conds = P.path_conditions(fn, n) or []
-                # only the integer-index branch leads to the *_GET_ITEM templates
+                # only selections made for the builtin sequence types lead to the *_GET_ITEM templates
+                mentioned = {a.attr for t, _ in conds for a in ast.walk(t) if isinstance(a, ast.Attribute)}
+                if not (mentioned & raw_types):
+                    r.info('IndexNode.%s: is_temp = 0 outside the builtin-sequence branch is not an unchecked sequence access' % mname)
+                    continue
                 found += 1
                 key = 'IndexNode.%s:is_temp=0' % mname
                 r.inst(key, sample='%s: is_temp = 0 under %s' % (mname, ' and '.join(('' if p else 'not ') + '(' + node_src(t, 50) + ')' for t, p in conds)))
